@@ -496,6 +496,25 @@ theorem uperGetLength_le {lb : Nat} {bits : Bits} {n : Nat} {rep : Bool} {r : Bi
         · cases h
         · cases h; omega
 
+/-- an unconstrained length that is not a fragment is below 16K -/
+theorem uperGetLength_norepeat_lt {lb : Nat} {bits : Bits} {n : Nat} {r : Bits}
+    (h : uperGetLength none lb bits = some (n, false, r)) : n < 16384 := by
+  unfold uperGetLength at h
+  simp only at h
+  split at h
+  · cases h
+  · rename_i v r1 hg1
+    split at h
+    · cases h; omega
+    · split at h
+      · split at h
+        · cases h
+        · rename_i w r2 hg2
+          cases h
+          have := getBits_lt hg2
+          omega
+      · split at h <;> cases h
+
 theorem uperGetLength_constrained_lt {e lb : Nat} {bits : Bits} {n : Nat} {rep : Bool} {r : Bits}
     (h : uperGetLength (some e) lb bits = some (n, rep, r)) : n < lb + 2 ^ e := by
   unfold uperGetLength at h
@@ -513,6 +532,7 @@ theorem osUperLoop_step (bpc u : Nat) (eb : Option Nat) (lb fuel : Nat) (bits : 
       | none => ⟨.more, bits, h, k⟩
       | some (rawLen, rep, bits1) =>
         if rawLen = 0 ∧ buf.isSome then ⟨.ok, bits1, h, k + 1⟩
+        else if u = 0 ∧ rep = true then ⟨.fail, bits1, h, k + 1⟩
         else
           if bits1.length < rawLen * u then
             ⟨.more, bits1, (match buf with
@@ -567,6 +587,8 @@ theorem osUperLoop_heap (ssz bpc u : Nat) (eb : Option Nat) (lb L : Nat)
       split
       · exact ⟨size, Nat.le_refl _, by simp only; omega, by simp only; omega⟩
       · split
+        · exact ⟨size, Nat.le_refl _, by simp only; omega, by simp only; omega⟩
+        split
         · refine ⟨size, Nat.le_refl _, by simp only; omega, ?_⟩
           simp only; rw [hre.2]; omega
         · rename_i hdata
@@ -614,6 +636,8 @@ theorem osUperLoop_rounds (bpc u lb : Nat) :
       split
       · simp; omega
       · split
+        · simp; omega
+        split
         · simp; omega
         · rename_i hdata
           split
